@@ -1,0 +1,6 @@
+//go:build !verif
+// +build !verif
+
+package hap
+
+func verifWriteGate(con *Connection, sealed []byte) {}
